@@ -141,26 +141,29 @@ def jobs(tier):
     for K in (1, 2, 3) + ((4,) if tier == "thorough" else ()):
         js.append(Job(f"item-step-vs-reference/enc1/K{K}", c01.job_item_step, dict(K=K, with_reference=True, timeout_s=1500 if tier == "quick" else 3300),
                       "follows_documented_rule", 1700 if tier == "quick" else 3500, weight=K))
-    nmax = 3 if tier == "quick" else 4
     for enc in (1, 2):
-        for n in range(1, nmax + 1):
+        for n in range(1, 4):
             for reps in P.compositions(n):
                 xs = list(P.signed_perms(reps))
                 if tier == "quick":
                     if list(reps) != sorted(reps, reverse=True):
                         continue
                     xs = [x for x in xs if c01._canonical(x, reps)]
-                per = 4 if n <= 3 else 2
-                for ci, ch in enumerate(c01._chunks(xs, per)):
+                for ci, ch in enumerate(c01._chunks(xs, 4)):
                     js.append(Job(f"diff/enc{enc}/reps{'-'.join(map(str, reps))}/{ci}", job_diff,
-                                  dict(enc=enc, reps=reps, xs=ch, timeout_s=1200 if n <= 3 else 3000), "follows_documented_rule",
-                                  1300 if n <= 3 else 3300, weight=n))
+                                  dict(enc=enc, reps=reps, xs=ch, timeout_s=1500), "follows_documented_rule", 1700, weight=n))
+        if tier == "thorough":
+            signs = [(1, 1, 1, 1), (-1, -1, -1, -1), (1, -1, 1, -1), (-1, 1, 1, -1)] if enc == 1 else [(1, 1, 1, 1), (-1, 1, -1, 1)]
+            for sg in signs:
+                x = [(k + 1) * sg[k] for k in range(4)]
+                js.append(Job(f"diff/enc{enc}/reps1-1-1-1/{''.join('+' if q > 0 else '-' for q in sg)}", job_diff,
+                              dict(enc=enc, reps=[1, 1, 1, 1], xs=[x], timeout_s=3300), "follows_documented_rule", 3500, weight=10))
     return js
 
 
 def meta(tier):
     return dict(
-        bounds=dict(items=f"<= {3 if tier == 'quick' else 4} items, every multiplicity vector and signed permutation (quick: up to relabelling)",
+        bounds=dict(items="<= 3 items, every multiplicity vector and signed permutation (quick: up to relabelling); thorough adds four distinct items for a few sign patterns",
                     item_step="encoding 1: one item into an arbitrary feasible bin with K <= 3 (thorough 4) boxes lands exactly where the reference rule puts it (or opens a new bin)",
                     sizes="bin and item sizes symbolic in 1..10^12", prior_state="destination packing and the encoder's scratch arrays start as arbitrary garbage; "
                           "the reference does not read them, so agreement implies independence from earlier decodings"),
